@@ -1875,3 +1875,93 @@ func ruleP17(r *Run) {
 	}
 	r.Check(posSet < posAppend && (posResponse == 0 || posSet < posResponse), key, fd.Pos(), "resultMap.Set precedes callCache.Append and response", "the call is put into the cache (or the parked poll is woken) before the channel for its answer is registered: under load the provider's answer can arrive first, `end` finds no pending call for it and drops it, and the caller times out although the call was executed")
 }
+
+// ---------------------------------------------------------------------------------------------------
+// G37 a counter slice that is re-allocated keeps its counts
+
+func init() {
+	register("G37", "in rpc/plugins/loadbalance a slice field whose elements are incremented and decremented around the downstream call (the in-flight counters, the effective weights) is never replaced by a fresh make() while it may hold counts: an assignment of a newly made slice to such a field, outside the constructor, copies the old contents first (append, or make + copy from the field) - otherwise the calls in flight later decrement counters that were reset to zero, the counts go negative and never return to zero", 1, ruleG37)
+}
+
+func ruleG37(r *Run) {
+	p := r.P
+	pkg := p.Pkg("rpc/plugins/loadbalance")
+	if pkg == nil {
+		r.Undec("package rpc/plugins/loadbalance", 0, "not found")
+		return
+	}
+	info := pkg.TypesInfo
+	// counter fields: fields with an IncDec on an element
+	counters := map[*types.Var]bool{}
+	for _, file := range pkg.Syntax {
+		ast.Inspect(file, func(m ast.Node) bool {
+			if ids, ok := m.(*ast.IncDecStmt); ok {
+				if ix, ok := ast.Unparen(ids.X).(*ast.IndexExpr); ok {
+					if fv := fieldOf(info, ix.X); fv != nil {
+						counters[fv] = true
+					}
+				}
+			}
+			return true
+		})
+	}
+	n := 0
+	for _, file := range pkg.Syntax {
+		for _, d := range file.Decls {
+			fd, ok := d.(*ast.FuncDecl)
+			if !ok || fd.Body == nil || fd.Recv == nil {
+				continue // constructors (no receiver) build fresh instances
+			}
+			defs := localDefs(info, fd.Body)
+			k := 0
+			ast.Inspect(fd.Body, func(m ast.Node) bool {
+				as, ok := m.(*ast.AssignStmt)
+				if !ok || len(as.Lhs) != len(as.Rhs) {
+					return true
+				}
+				for i, l := range as.Lhs {
+					fv := fieldOf(info, l)
+					if fv == nil || !counters[fv] {
+						continue
+					}
+					if _, isIdx := ast.Unparen(l).(*ast.IndexExpr); isIdx {
+						continue
+					}
+					n++
+					k++
+					rhs := ast.Unparen(as.Rhs[i])
+					src := rhs
+					if o := identObj(info, rhs); o != nil {
+						if d, ok := defs[o]; ok && d != nil {
+							src = ast.Unparen(d)
+						}
+					}
+					keeps := false
+					if c, ok := src.(*ast.CallExpr); ok {
+						switch {
+						case IsBuiltin(info, c, "append"):
+							keeps = len(c.Args) > 0 && fieldOf(info, c.Args[0]) == fv
+						case IsBuiltin(info, c, "make"):
+							// make + copy(local, field) before the assignment
+							if o := identObj(info, rhs); o != nil {
+								ast.Inspect(fd.Body, func(x ast.Node) bool {
+									if cc, ok := x.(*ast.CallExpr); ok && IsBuiltin(info, cc, "copy") && len(cc.Args) == 2 && cc.Pos() < as.Pos() {
+										if identObj(info, cc.Args[0]) == o && fieldOf(info, cc.Args[1]) == fv {
+											keeps = true
+										}
+									}
+									return true
+								})
+							}
+						}
+					}
+					r.Check(keeps, fmt.Sprintf("reallocation of %s in %s #%d", fv.Name(), p.DeclName(fd), k), as.Pos(), "the old counts are carried over", fmt.Sprintf("%s is replaced by `%s` without copying what it held: the calls that are in flight at that moment have been counted in the old slice and will decrement the new one - their servers' counts become -1 and never return to zero, and the balancer prefers them for ever", fv.Name(), types.ExprString(as.Rhs[i])))
+				}
+				return true
+			})
+		}
+	}
+	if n == 0 {
+		r.Undec("reallocations of counter slices", 0, "none found")
+	}
+}
